@@ -13,7 +13,7 @@ ROOT = os.path.dirname(os.path.abspath(__file__))
 ESZ = dict(Z0=0, E1=1, E2=2, E3=3, E8=8, E12=12, E16=16, E24=24, E160=160, D3=3, D8=8, D24=24, A32=32, A64=64)
 OPS = dict(OP_REMOVE=0, OP_SWAP_REMOVE=1, OP_POP=2)
 SINKS = dict(SINK_DROP=1, SINK_MOVE=2, SINK_FORGET=3, SINK_DOWNCAST=2)
-SRCS = dict(SRC_RAW=0, SRC_WRAPPER=1, SRC_TYPED=2)
+SRCS = dict(SRC_RAW=0, SRC_WRAPPER=1, SRC_TYPED=2, SRC_SIZELESS=0)
 
 
 def scenario_of(h):
